@@ -47,7 +47,7 @@ func (r *Rig) BindRTCP() {
 
 // MembersFor expands "chain" into the synchronous members, otherwise returns the single name.
 func MembersFor(member string) []string {
-	if member != "chain" {
+	if member != "chain" && member != "chain-reversed" {
 		return []string{member}
 	}
 	var out []string
@@ -56,6 +56,13 @@ func MembersFor(member string) []string {
 			continue
 		}
 		out = append(out, n)
+	}
+	if member == "chain-reversed" {
+		// the other nesting: what was written through last is written through first (a responder's retransmissions pass the
+		// header-extension and report members instead of the generators)
+		for i, j := 0, len(out)-1; i < j; i, j = i+1, j-1 {
+			out[i], out[j] = out[j], out[i]
+		}
 	}
 
 	return out
